@@ -58,7 +58,7 @@ COORDS = ["node_lon", "node_lat", "node_x", "node_y", "node_z", "face_lon", "fac
 DERIVE = COORDS + [
     "n_nodes_per_face", "edge_node_connectivity", "face_edge_connectivity", "edge_face_connectivity", "node_face_connectivity",
     "face_face_connectivity", "face_areas", "bounds", "edge_node_distances", "edge_face_distances", "antimeridian_face_indices",
-    "hole_edge_indices", "edge_node_z", "face_jacobian",
+    "hole_edge_indices", "edge_node_z", "face_jacobian", "faces_at_lat", "tree:ball:nodes", "tree:ball:face centers", "tree:kd:nodes", "tree:kd:edge centers",
 ]
 SETTERS = COORDS + [
     "face_node_connectivity", "edge_node_connectivity", "n_nodes_per_face", "face_areas", "node_face_connectivity", "face_face_connectivity",
@@ -83,6 +83,8 @@ EXPORTS = [
     {"what": "linec", "pe": "ignore"},
     {"what": "uxda_gdf", "engine": "geopandas", "pe": "exclude"},
     {"what": "uxda_gdf", "engine": "spatialpandas", "pe": "ignore"},
+    {"what": "uxda_gdf", "engine": "geopandas", "pe": "exclude", "cache": False},
+    {"what": "uxda_gdf", "engine": "spatialpandas", "pe": "exclude", "cache": False},
     {"what": "uxda_polyc", "pe": "exclude"},
     {"what": "uxda_polyc", "pe": "split"},
 ]
@@ -405,12 +407,21 @@ class Alias(Profile):
         W.digest[h] = D.grid_digest(c)
         W.fire("copy")
         vs = []
+        # cached search trees are built lazily from the grid they point back to: a copy must not
+        # carry wrappers that still belong to the original
+        for attr in ("_ball_tree", "_kd_tree"):
+            t = getattr(c, attr, None)
+            if t is not None and (t is getattr(g, attr, None) or getattr(t, "_source_grid", c) is not c):
+                vs.append(V(f"C19/copy[{op['via']}]/shares-search-tree", i, f"the copy's cached {attr[1:]} is the original's wrapper or still refers to the original grid: elements built later come from the original's coordinates"))
+                break
         # the copy must report what the original reports (same variables, same values)
         a, b = W.digest[src], W.digest[h]
         bad = [k for k in D.diff(a, b) if k.startswith("var:") or k in ("__sizes__", "source_grid_spec")]
         # making a copy must not change the original
         self_bad = D.diff(W.digest[src], D.grid_digest(g))
-        if self_bad:
+        if vs:
+            pass
+        elif self_bad:
             vs.append(V(f"C19/copy[{op['via']}]/changed-original", i, f"copy() changed the grid it copies: {self_bad[:6]}"))
         elif bad:
             vs.append(V(f"C19/copy[{op['via']}]/copy-differs", i, f"the copy does not report what the original reports: {bad[:6]}"))
@@ -437,7 +448,14 @@ class Alias(Profile):
             elif kind == "chunk":
                 g.chunk(n_node=op["n"], n_edge=op["n"], n_face=op["n"])
             elif kind == "derive":
-                v = getattr(g, op["name"])
+                nm = op["name"]
+                if nm == "faces_at_lat":
+                    v = g.get_faces_at_constant_latitude(7.25)
+                elif nm.startswith("tree:"):
+                    _, tt, coords = nm.split(":")
+                    v = (g.get_ball_tree if tt == "ball" else g.get_kd_tree)(coordinates=coords)
+                else:
+                    v = getattr(g, nm)
                 out = ("derived", type(v).__name__)
             elif kind == "setter":
                 old = getattr(g, op["name"])
@@ -508,7 +526,7 @@ class Alias(Profile):
             return g.to_linecollection(**kw)
         da = ux.UxDataArray(np.arange(g.n_face, dtype=float) * 1.5 + 7.0, dims=["n_face"], uxgrid=g, name="v")
         if what == "uxda_gdf":
-            return da.to_geodataframe(engine=op["engine"], **kw)
+            return da.to_geodataframe(engine=op["engine"], **kw)  # kw carries cache
         if what == "uxda_polyc":
             return da.to_polycollection(**kw)
         raise ValueError(what)
@@ -568,7 +586,7 @@ class Alias(Profile):
         """Objects handed out earlier and not edited by the caller keep the value they had."""
         for xh in sorted(W.exports):
             x = W.exports[xh]
-            if x["edited"] or x.get("is_cache"):
+            if x["edited"]:
                 continue
             try:
                 cur = self.export_digest(x["obj"])
@@ -705,6 +723,13 @@ class Alias(Profile):
         except Exception as e:
             kind = "edit-failed:" + type(e).__name__
         x["edited"] = True
+        # the same object may have been handed out more than once (cache identity): the caller's
+        # edit shows through every handle of it
+        first = x["obj"][0] if isinstance(x["obj"], tuple) else x["obj"]
+        for x2 in W.exports.values():
+            f2 = x2["obj"][0] if isinstance(x2["obj"], tuple) else x2["obj"]
+            if f2 is first:
+                x2["edited"] = True
         W.fire("caller_edit")
         W.cov["nontrivial"] = True
         W.cov["judged"] += 1
